@@ -527,12 +527,9 @@ class SuitKeyValue(SuitObject):
 
                         # TODO: refactoring required: workaround for multiple integrated payloads
                         if item in value and (item is suit_integrated_payloads or item is suit_integrated_dependencies):
-                            value[item].SuitIntegratedPayloadMap = {
-                                **value[item].SuitIntegratedPayloadMap,
-                                **cls._metadata.map[item]
-                                .from_cbor(cls.serialize_cbor({k: v}))
-                                .SuitIntegratedPayloadMap,
-                            }
+                            value[item].SuitIntegratedPayloadMap.update(
+                                cls._metadata.map[item].from_cbor(cls.serialize_cbor({k: v})).SuitIntegratedPayloadMap
+                            )
                         else:
                             value[item] = cls._metadata.map[item].from_cbor(cls.serialize_cbor({k: v}))
                     except ValueError:
